@@ -484,6 +484,15 @@ def attach(tr):
     _wrap(BetfairExecution, "execute_update", mk_exec("UPDATE"))
     _wrap(BetfairExecution, "execute_replace", mk_exec("REPLACE"))
 
+    def _market_pt_now(order):
+        """publish time of the book the framework holds for the order's market at this very moment"""
+        fw = getattr(TR, "framework", None)
+        try:
+            mk = fw.markets.markets.get(order.market_id) if fw is not None else None
+            return mk.market_book.publish_time_epoch if mk is not None and mk.market_book is not None else None
+        except Exception:  # noqa: BLE001
+            return None
+
     # ---- simulated placement / fragments (C05, C06) -----------------------------------------
     def mk_place(orig):
         def place(self, order_package, market_book, instruction, bet_id):
@@ -508,6 +517,7 @@ def attach(tr):
                 "full_match": self.order.client.simulated_full_match,
                 "book_pt": market_book.publish_time_epoch,
                 "book_is_update": market_book is getattr(TR, "current_book_obj", None),  # matched against the very update being processed
+                "market_pt_now": _market_pt_now(self.order),
                 "mstatus": market_book.status,
                 "mversion": market_book.version,
                 "pkg_mv": order_package._market_version,
